@@ -100,9 +100,15 @@ pub fn closest_triangle<S: Src>(s: &mut S, n: i8) {
     vcover!(pos == Pos::Exterior && best.1 > 1, "closest approach in the interior of the hypotenuse");
 }
 
-pub fn closest_linestring<S: Src>(s: &mut S, n: i8) {
+/// `repeated`: exactly one of the two segments has zero length (a repeated vertex, which a valid
+/// line string may contain); otherwise both segments have length
+pub fn closest_linestring<S: Src>(s: &mut S, n: i8, repeated: bool) {
     let (a, b, c, p) = (gp(s, n), gp(s, n), gp(s, n), gp(s, n));
-    vassume!(a != b && b != c);
+    if repeated {
+        vassume!((a == b) != (b == c));
+    } else {
+        vassume!(a != b && b != c);
+    }
     let g = ls_f(&[a, b, c]);
     let r = g.closest_point(&Point(cf(p)));
     let on = on_segment(p, a, b) || on_segment(p, b, c);
@@ -116,7 +122,11 @@ pub fn closest_linestring<S: Src>(s: &mut S, n: i8) {
         }
         Closest::Indeterminate => assert!(false, "Indeterminate for a line string with length"),
     }
-    vcover!(on_segment(p, b, c) && !on_segment(p, a, b), "query on the second segment only");
+    if repeated {
+        vcover!(a == b && !on, "zero-length first segment, query off the line string");
+    } else {
+        vcover!(on_segment(p, b, c) && !on_segment(p, a, b), "query on the second segment only");
+    }
     core::mem::forget(g);
 }
 
@@ -154,7 +164,8 @@ harnesses! {
     #[kani::stub(robust::orient2d, crate::stubs::orient2d_small)] #[kani::stub(f32::hypot, crate::stubs::hypot_f32)] fn c12_closest_line_g2(s) { closest_line(s, 2) }
     #[kani::unwind(5)] #[kani::stub(f32::hypot, crate::stubs::hypot_f32)] fn c12_closest_point_point(s) { closest_point_point(s) }
     #[kani::unwind(7)] #[kani::stub(robust::orient2d, crate::stubs::orient2d_small)] #[kani::stub(f32::hypot, crate::stubs::hypot_f32)] fn c12_closest_triangle_g3(s) { closest_triangle(s, 3) }
-    #[kani::unwind(6)] #[kani::stub(robust::orient2d, crate::stubs::orient2d_small)] #[kani::stub(f32::hypot, crate::stubs::hypot_f32)] fn c12_closest_linestring_g1(s) { closest_linestring(s, 1) }
+    #[kani::unwind(6)] #[kani::stub(robust::orient2d, crate::stubs::orient2d_small)] #[kani::stub(f32::hypot, crate::stubs::hypot_f32)] fn c12_closest_linestring_g1(s) { closest_linestring(s, 1, false) }
+    #[kani::unwind(6)] #[kani::stub(robust::orient2d, crate::stubs::orient2d_small)] #[kani::stub(f32::hypot, crate::stubs::hypot_f32)] fn c12_closest_linestring_repeated_g1(s) { closest_linestring(s, 1, true) }
     #[kani::unwind(6)] #[kani::stub(robust::orient2d, crate::stubs::orient2d_small)] #[kani::stub(f32::hypot, crate::stubs::hypot_f32)] fn c12_interior_points_g2(s) { interior_points(s, 2) }
     #[kani::stub(f32::hypot, crate::stubs::hypot_f32)] fn c12_sanity_must_fail(s) {
         closest_point_point(s);
